@@ -1,6 +1,32 @@
-(* C17 -- Spans reported for errors and captures index the expression safely (first lemmas). *)
-From WaxModel Require Import Base Token Parse.
-From WaxProofs Require Import ParseFacts.
+(* C17 -- Spans reported for errors and captures index the expression safely.
+   [span_ok e (s, n)]: the expression is pre ++ mid ++ post with s = byte length of pre and n = byte length of mid, i.e. the span
+   lies within the expression and starts and ends on character boundaries: slicing by it cannot panic. *)
+From WaxModel Require Import Base Token Parse Variance Fold Rule Query.
+From WaxProofs Require Import ParseFacts SpanFacts.
+
+(* every span of the token tree of every expression that parses *)
+Theorem C17_token_spans : forall e t, parse e = ParseOk t -> spans_ok e t.
+Proof. exact parse_spans_ok. Qed.
+Print Assumptions C17_token_spans.
+
+(* the spans of the capturing sub-expressions *)
+Theorem C17_capture_spans : forall e t c, parse e = ParseOk t -> In c (captures t) -> span_ok e (snd c).
+Proof. intros e t c H. apply capture_spans_ok. apply parse_spans_ok. exact H. Qed.
+Print Assumptions C17_capture_spans.
+
+(* every location of every parse error (for every string) *)
+Theorem C17_parse_error_spans : forall e locs, parse e = ParseErr locs -> Forall (span_ok e) locs.
+Proof. exact parse_error_spans_ok. Qed.
+Print Assumptions C17_parse_error_spans.
+
+(* the span of every rule error *)
+Theorem C17_rule_error_span : forall e t k sp, parse e = ParseOk t -> check t = Ok (Some (k, sp)) -> span_ok e sp.
+Proof. intros e t k sp H. apply rule_error_span_ok. apply parse_spans_ok. exact H. Qed.
+Print Assumptions C17_rule_error_span.
+
+Theorem C17_span_within_the_expression : forall e sp, span_ok e sp -> fst sp + snd sp <= blen e.
+Proof. exact span_ok_in_bounds. Qed.
+Print Assumptions C17_span_within_the_expression.
 
 (* a parse error entry located at a character covers exactly that character; at the end of input, nothing *)
 Theorem C17_error_span_char : forall pos c s, err_span pos (c :: s) = (pos, utf8_len c).
